@@ -182,7 +182,10 @@ func (uconn *UConn) uLoadSession() error {
 		if session.version == VersionTLS12 {
 			// We use the session ticket extension for tls 1.2 session resumption
 			uconn.sessionController.initSessionTicketExt(session, hello.sessionTicket)
-			uconn.sessionController.setSessionTicketToUConn()
+			if uconn.sessionController.sessionTicketExt != nil {
+				// without a session ticket extension the resumption was skipped
+				uconn.sessionController.setSessionTicketToUConn()
+			}
 		} else {
 			uconn.sessionController.initPskExt(session, earlySecret, binderKey, hello.pskIdentities)
 		}
